@@ -378,3 +378,5 @@ def r4_8(cx):
 
 
 RULES = [('R4.1', r4_1), ('R4.2', r4_2), ('R4.3', r4_3), ('R4.4', r4_4), ('R4.5', r4_5), ('R4.6', r4_6), ('R4.7', r4_7), ('R4.8', r4_8)]
+RULES.append(('R4.9', scan_rule(('owning_iovec::implementation::', 'owning_iovec::global_deque::'))))
+FLOORS['R4.9'] = 1
